@@ -1,5 +1,5 @@
 """Check C06: Registry family (name registration races; sequential registry histories; identifier generators)."""
-import json, os, random, shutil, sys, time, concurrent.futures as cf
+import json, os, random, re, shutil, sys, time, concurrent.futures as cf
 sys.path.insert(0, os.path.dirname(os.path.abspath(__file__)))
 import vlib, fam
 
@@ -91,6 +91,59 @@ def run_ids(tier, w, vh):
     return out
 
 
+
+HIST_CLAUSES = ["AliasesIntact", "ReleasedAliases", "ReleasedName", "ReleasedEvents", "NoRelationOfDead"]
+
+
+def hist_cases(tier, rng):
+    hs = []
+    def H(ops, ex="kill"):
+        hs.append({"id": len(hs) + 1, "ops": [{"op": o, "k": k} for o, k in ops], "exit": ex})
+    exits = ["kill", "normal", "abn"]
+    # aliases: every deletion position out of 1..4 aliases, also two deletions
+    for n in (1, 2, 3, 4):
+        for d in range(1, n + 1):
+            H([("alias", 0)] * n + [("delalias", d)], rng.choice(exits))
+            H([("alias", 0)] * n + [("delalias", d), ("alias", 0)], rng.choice(exits))
+        for d1 in range(1, n + 1):
+            for d2 in range(1, n + 1):
+                if d1 != d2 and (tier == "thorough" or rng.random() < 0.4):
+                    H([("alias", 0)] * n + [("delalias", d1), ("delalias", d2)], rng.choice(exits))
+    for ex in exits:
+        H([("name", 1), ("event", 1), ("event", 2), ("unevent", 1), ("link", 0), ("monitor", 1), ("unlink", 0)], ex)
+        H([("link", 0), ("monitor", 1), ("link", 1), ("monitor", 0)], ex)
+        H([("name", 1), ("unname", 0), ("name", 2), ("alias", 0), ("event", 1)], ex)
+        H([("monitor", 0), ("demonitor", 0), ("monitor", 0), ("link", 2)], ex)
+    ops = ["alias", "alias", "delalias", "name", "unname", "event", "unevent", "link", "unlink", "monitor", "demonitor"]
+    for _ in range(60 if tier == "quick" else 1500):
+        H([(rng.choice(ops), rng.randint(0, 4)) for _ in range(rng.randint(2, 12))], rng.choice(exits))
+    return hs
+
+
+def run_hist(tier, w, vh, seed):
+    rng = random.Random(seed * 13 + 1)
+    hs = hist_cases(tier, rng)
+    inp = os.path.join(w, "reghist_in.json"); out = os.path.join(w, "reghist_trace.ndjson")
+    json.dump({"histories": hs}, open(inp, "w"))
+    rc, so, se, to = vlib.run_vh(vh, ["reghist", "-in", inp, "-out", out], timeout=600)
+    if rc != 0 or to:
+        raise vlib.Infra("reghist harness failed rc=%s: %s" % (rc, (se or so)[-1200:]))
+    lines = open(out).read().splitlines()
+    fam.write_mc(w, "MC_RegistryHT", "RegistryH", {}, {"TraceFile": '"reghist_trace.ndjson"', "Checks": fam.tla_set(HIST_CLAUSES)}, constraint="HWM", postcondition="TraceAccepted")
+    r = vlib.run_tlc(w, "MC_RegistryHT.tla", "MC_RegistryHT.cfg", workers=1, timeout=900)
+    if re.search(r'TRACE_REJECTED_AT_LINE', r.out):
+        raise vlib.Infra("RegistryH.tla could not consume the trace: %s" % r.out[-800:])
+    hits = [(m.group(1), int(m.group(2))) for m in re.finditer(r'"CLAUSE_VIOLATED", "(\w+)", "LINE", (\d+)', r.out)]
+    if r.rc != 0 and not hits:
+        raise vlib.Infra("RegistryH validation failed: %s" % (r.error or r.out[-1200:]))
+    viol = []
+    for clause, line in hits:
+        e = json.loads(lines[line - 1])
+        viol.append({"clause": clause, "history": e, "what": "history %s exit=%s: aliases after termination %s (before: %s), name %r, events %s, relations left %d/%d" %
+                     ([(o["op"], o["k"]) for o in e["ops"]], e["exit"], e["aliases"], e["mid"], e["name"], e["events"], e["rels"], e["relst"])})
+    return {"histories": len(hs), "violations": viol, "states": r.distinct, "generated": r.generated, "sample": hs[rng.randrange(len(hs))]}
+
+
 def main(prop, tier):
     t0 = time.time(); seed = vlib.seed()
     w = vlib.scratch("reg_%s_" % prop)
@@ -104,12 +157,15 @@ def main(prop, tier):
             for f in futs:
                 results.append(f.result())
         ids = run_ids(tier, w, vh)
+        hist = run_hist(tier, w, vh, seed)
         violations = [(r["scenario"], v) for r in results for v in r["violations"]]
         violations += [("ids", v) for v in ids["violations"]]
+        violations += [("hist", v) for v in hist["violations"]]
         execs = sum(r["harness"]["plans"] for r in results if r["trace"]["accepted"])
         drift = [r["trace"] for r in results if r["trace"].get("drift")]
-        cov = {"states": sum(r["u1"]["distinct"] for r in results) + ids["design"]["states"], "transitions": sum(r["u1"]["generated"] for r in results) + ids["design"]["generated"],
-               "traces_validated_against_impl": execs,
+        cov = {"states": sum(r["u1"]["distinct"] for r in results) + ids["design"]["states"] + hist["states"], "transitions": sum(r["u1"]["generated"] for r in results) + ids["design"]["generated"] + hist["generated"],
+               "traces_validated_against_impl": execs + hist["histories"] - len(hist["violations"]),
+               "registry_histories": hist["histories"], "registry_history_clauses": HIST_CLAUSES, "registry_history_sample": hist["sample"],
                "samples": [{"scenario": r["scenario"], "plan": r["sample_plan"]} for r in results[:3]],
                "model_edges": sum(r["graph"]["edges"] for r in results), "plans_replayed": sum(r["plans"] for r in results),
                "drift_executions": sum(d["drift"][1] for d in drift), "controller_stalls": sum(r["harness"]["stalls"] for r in results),
@@ -124,7 +180,7 @@ def main(prop, tier):
         if drift:
             print("note: %d scenario trace(s) contain executions that are not behaviours of the Core spec (drift, not a violation); first: %s" %
                   (len(drift), json.dumps(drift[0])[:500]))
-        print("%s %s: %d model states, %d executions validated, %d violations, %.0fs" % (prop, tier, cov["states"], execs, len(violations), time.time() - t0))
+        print("%s %s: %d model states, %d executions + %d ownership histories validated, %d violations, %.0fs" % (prop, tier, cov["states"], execs, hist["histories"], len(violations), time.time() - t0))
         return 1 if violations else 0
     finally:
         if not os.environ.get("VERIF_KEEP"):
